@@ -82,6 +82,8 @@ type Session struct {
 	curBlk   *ssa.BasicBlock
 	anc      map[*ssa.BasicBlock]map[*ssa.BasicBlock]bool
 	mu       sync.Mutex
+	inputs   []*inSpec
+	inputTerms []string
 	extRefs  []string // references of slices/maps received as arguments
 	subst    [][2]string // textual substitutions applied to every query (case splits)
 	newObjs  []newObj
@@ -437,7 +439,9 @@ func (s *Session) queryRaw(o *Obligation, specDefs string) string {
 	}
 	sb.WriteString("(check-sat)\n")
 	defer func() {}()
-	if len(o.Watch) > 0 && !o.Cover {
+	if o.NoQuant && len(s.inputTerms) > 0 {
+		sb.WriteString("(get-value (" + strings.Join(s.inputTerms, "\n ") + "))\n")
+	} else if len(o.Watch) > 0 && !o.Cover {
 		var ts []string
 		for _, w := range o.Watch {
 			ts = append(ts, w.Term)
